@@ -15,6 +15,7 @@ import (
 	"testing/synctest"
 	"time"
 
+	"github.com/miekg/dns"
 	"github.com/semihalev/sdns/internal/vfgen"
 	"github.com/semihalev/sdns/internal/vfstat"
 	"github.com/semihalev/sdns/middleware/cache"
@@ -27,6 +28,7 @@ type vfC05Step struct {
 	Raw    []byte
 	Proto  string
 	Client int
+	Echo   bool // send the cookie option of the last reply this client got (client + server cookie), as a real client does
 }
 
 // vfC05Run executes the history with the given ingress and returns the transcript.
@@ -36,14 +38,37 @@ func vfC05Run(t *testing.T, dir string, p vfC05Params, mkUp func() *vfUp, steps 
 		w := vfNewWorld(vfC05Config(dir, p), mkUp())
 		defer w.Close()
 		before := cache.VerifWireStats()
+		lastCookie := map[int]string{}
 		for i, st := range steps {
 			if st.Sleep > 0 {
 				time.Sleep(st.Sleep)
 				transcript = append(transcript, fmt.Sprintf("step %d sleep %s", i, st.Sleep))
 				continue
 			}
-			r := w.Ask(st.Raw, st.Proto, vfgen.ClientAddrs[st.Client], 4000+st.Client, wire)
-			line := fmt.Sprintf("step %d handled=%v reply: %s", i, r.Handled, vfCanon(r))
+			raw := st.Raw
+			if st.Echo && lastCookie[st.Client] != "" && st.Q != nil {
+				q := *st.Q
+				q.EDNS = true
+				var opts []vfgen.OptionSpec
+				for _, o := range q.Options {
+					if o.Kind != "cookie" {
+						opts = append(opts, o)
+					}
+				}
+				q.Options = append(opts, vfgen.OptionSpec{Kind: "cookie", Data: lastCookie[st.Client]})
+				raw = q.Pack()
+			}
+			r := w.Ask(raw, st.Proto, vfgen.ClientAddrs[st.Client], 4000+st.Client, wire)
+			if r.Msg != nil {
+				if opt := r.Msg.IsEdns0(); opt != nil {
+					for _, o := range opt.Option {
+						if c, ok := o.(*dns.EDNS0_COOKIE); ok && len(c.Cookie) >= 16 {
+							lastCookie[st.Client] = c.Cookie
+						}
+					}
+				}
+			}
+			line := fmt.Sprintf("step %d handled=%v echo=%v reply: %s", i, r.Handled, st.Echo && raw != nil && len(raw) != len(st.Raw), vfCanon(r))
 			// side effects later queries can see: what is cached, what went upstream
 			var ents []string
 			if w.cache != nil {
@@ -109,10 +134,24 @@ func TestVerifC05Twin(t *testing.T) {
 			case 3:
 				q.Name, q.Qtype = hot2.name, hot2.qtype
 			}
-			steps = append(steps, vfC05Step{Q: q, Raw: q.Pack(), Proto: rapid.SampledFrom([]string{"udp", "udp", "tcp"}).Draw(rt, "proto"), Client: rapid.IntRange(0, len(vfgen.ClientAddrs)-1).Draw(rt, "client")})
+			steps = append(steps, vfC05Step{Q: q, Raw: q.Pack(), Proto: rapid.SampledFrom([]string{"udp", "udp", "tcp"}).Draw(rt, "proto"), Client: rapid.IntRange(0, len(vfgen.ClientAddrs)-1).Draw(rt, "client"),
+				Echo: p.Cookie && rapid.IntRange(0, 2).Draw(rt, "echo") == 0})
 			if len(q.Edits) > 0 {
 				classes = append(classes, "edited-packet")
 			}
+		}
+		if p.Cookie && p.ClientRate > 0 && rapid.IntRange(0, 1).Draw(rt, "rotation") == 0 {
+			// a client that rotates its cookie while switching transports, then echoes what it was given: the per-client
+			// stored cookie is state the limiter keeps between packets
+			cl := rapid.IntRange(0, len(vfgen.ClientAddrs)-1).Draw(rt, "rot.client")
+			mk := func(cookie, proto string, echo bool, id uint16) vfC05Step {
+				q := &vfgen.QuerySpec{ID: id, Name: hot.name, Qtype: hot.qtype, Qclass: dns.ClassINET, RD: true, EDNS: true, UDPSize: 1232, Options: []vfgen.OptionSpec{{Kind: "cookie", Data: cookie}}}
+				return vfC05Step{Q: q, Raw: q.Pack(), Proto: proto, Client: cl, Echo: echo}
+			}
+			rot := []vfC05Step{mk("0102030405060708", "udp", false, 901), mk("1112131415161718", rapid.SampledFrom([]string{"tcp", "tcp", "udp"}).Draw(rt, "rot.proto"), false, 902), mk("1112131415161718", "udp", true, 903)}
+			at := rapid.IntRange(0, len(steps)).Draw(rt, "rot.at")
+			steps = append(steps[:at], append(rot, steps[at:]...)...)
+			classes = append(classes, "cookie-rotation-across-transports")
 		}
 		tw, served, kinds := vfC05Run(t, dir, p, mkUp, steps, true)
 		tm, _, _ := vfC05Run(t, dir, p, mkUp, steps, false)
